@@ -361,6 +361,8 @@ def gen_scenario(ch, prof):
         for up in pubs:
             for _ in range(ch.rng_int('gen', 0, prof.ephemeral)):
                 eph = ch.pick('gen', list(prof.eph_kinds))
+                if nodes[up].get('outputs_balance'):
+                    eph = 2      # the documentation rules out '?' taps on load-balanced outputs; '??' watchers are fine
                 sub = gen_sub(ch, prof, nodes[up]['out'])
                 e = {'sources': [{'from': up, 'sub': sub, 'eph': eph}], 'has_output': False,
                      'proc_ns': [ch.pick('gen', [0, 50, 500, 5000, 10 ** 6]) * MS], 'side': True}
@@ -382,7 +384,8 @@ def gen_scenario(ch, prof):
                      not nodes[q].get('side') and not nodes[q].get('outputs_balance')]
             if _chance(ch, 1, 2):
                 # attached to the SAME publisher twice: synchronized for its topics, ephemerally for (another) one
-                same = [s['from'] for s in nodes[n]['sources'] if not s.get('eph')]
+                same = [s['from'] for s in nodes[n]['sources'] if not s.get('eph') and
+                        not nodes[s['from']].get('outputs_balance')]
                 pubs2 = same or pubs2
             if pubs2:
                 q = ch.pick('gen', pubs2)
@@ -552,10 +555,11 @@ def gen_c06(ch, prof):
             nodes[nid]['period_ns'] = ch.pick('gen', [50, 20, 100]) * MS
             nodes[nid].pop('skip', None)
     knobs['ZMQ_CONN_TIMEOUT'] = ct = ch.pick('gen', [2000, 1000, 5000])
-    consumers = {}
+    consumers = {}      # publisher -> its SYNCHRONIZED consumers ('??' listeners never register, a stalled '?' one times out)
     for nid in order:
         for s in nodes[nid].get('sources') or []:
-            consumers.setdefault(s['from'], []).append(nid)
+            if not s.get('eph'):
+                consumers.setdefault(s['from'], []).append(nid)
 
     def required_by(nid):
         out = []
